@@ -28,6 +28,23 @@ class C18Oracle(worldprop.Oracle):
     def probe(self, idx):
         import prov.model as M
         from prov.identifier import QualifiedName, Namespace, Identifier
+        # typed listing with a tuple of classes (get_records takes "a class or a tuple of classes", like isinstance), on
+        # the live containers — so that state an earlier listing may have left behind is there when records arrive
+        tuples = [(M.ProvEntity, M.ProvAgent), (M.ProvActivity, M.ProvRelation), (M.ProvElement, M.ProvGeneration),
+                  (M.ProvSpecialization, M.ProvMention, M.ProvUsage)]
+        for di, d in enumerate(self.im.docs):
+            for cname, c in [("d%d" % di, d)] + [("d%d/b%d" % (di, j), b) for j, b in enumerate(d._bundles.values())]:
+                recs = c.get_records()
+                for tp in tuples:
+                    try:
+                        got = list(c.get_records(tp))
+                    except Exception as e:
+                        self.fail(idx, "get_records(tuple of classes) raised", container=cname, exc=repr(e)[:200])
+                        continue
+                    want = [r for r in recs if isinstance(r, tp)]
+                    if len(got) != len(want) or any(a is not b for a, b in zip(got, want)):
+                        self.fail(idx, "get_records(tuple of classes) disagrees with the record list", container=cname,
+                                  classes=[t.__name__ for t in tp], got=len(got), want=len(want))
         docs = copy.deepcopy(self.im.docs)
         for di, d in enumerate(docs):
             conts = [("d%d" % di, d)] + [("d%d/b%d" % (di, j), b) for j, b in enumerate(d._bundles.values())]
